@@ -49,7 +49,7 @@ Overlay(m, a, d) == [i \in 1..Len(m) |-> IF i > a /\ i <= a + Len(d) THEN d[i - 
 (* the three configured algorithms; all are "chunkable": Sum(init, a \o b) = Sum(Sum(init, a), b) *)
 TrivialSum(init, s) == FoldLeft(LAMBDA acc, d : (acc + d) % 65536, init, s)
 Sum32(init, s) == FoldLeft(LAMBDA acc, d : (acc * 3 + d) % 16777213, init, s)
-InitOf(c) == IF c.alg = 3 THEN 7 ELSE 0
+InitOf(c) == CASE c.alg = 3 -> 7 [] c.alg = 2 -> 7439 [] OTHER -> 0        \* initial values configured by the harness (alg 1 is the built-in default)
 Checksum(c, img) == CASE c.alg = 1 -> TrivialSum(InitOf(c), img)
                       [] c.alg = 2 -> Buffer(InitOf(c), img)
                       [] OTHER -> Sum32(InitOf(c), img)
